@@ -149,6 +149,9 @@ func drive(ctx context.Context, client lungo.IClient, op *Op) (res model.Res, er
 		return model.Res{Vals: vals}, nil
 	case "updateOne", "updateMany":
 		o := options.Update().SetUpsert(op.Upsert)
+		if len(op.AF) > 0 {
+			o.SetArrayFilters(arrayFilters(op.AF))
+		}
 		var r *mongo.UpdateResult
 		var err error
 		if op.K == "updateOne" {
@@ -180,6 +183,9 @@ func drive(ctx context.Context, client lungo.IClient, op *Op) (res model.Res, er
 		return model.Res{Deleted: r.DeletedCount}, nil
 	case "findOneAndUpdate":
 		o := options.FindOneAndUpdate().SetUpsert(op.Upsert)
+		if len(op.AF) > 0 {
+			o.SetArrayFilters(arrayFilters(op.AF))
+		}
 		if op.After {
 			o.SetReturnDocument(options.After)
 		}
@@ -315,6 +321,14 @@ func drive(ctx context.Context, client lungo.IClient, op *Op) (res model.Res, er
 		return model.Res{Names: names}, nil
 	}
 	panic("harness: unknown driver op " + op.K)
+}
+
+func arrayFilters(js []*J) options.ArrayFilters {
+	var fs []interface{}
+	for _, j := range js {
+		fs = append(fs, j.doc())
+	}
+	return options.ArrayFilters{Filters: fs}
 }
 
 func updRes(r *mongo.UpdateResult) model.Res {
